@@ -21,6 +21,7 @@ def build():
     u.spec = u.spec + ['kinds/spec.rs', 'changeset/spec.rs']
     u.files = u.files + [CS]
     _kinds.add_dense(u, extra='C16')
+    _kinds.add_dense_slice(u, extra='C16')
     u.struct(CS, ['struct ChangeSet'], attr='#[verifier::reject_recursive_types(T)]')
     CI = 'impl<T> ChangeSet<T>'
     NEW_ENS = [E('wf', 'r.wf()'), E('empty', 'r@ == Map::<Index, T>::empty()')]
